@@ -60,6 +60,9 @@ var (
 	silent bool
 	// lastPanic: message of the most recent call that panicked ("" otherwise), one line
 	lastPanic string
+	// retryHang: how much longer a call that missed its deadline is waited for before it counts as a hang (0: not at all)
+	retryHang time.Duration
+	slowCalls int
 )
 
 // panicKind: a short class of the panic message, so that a recorded finding names one mechanism
@@ -105,6 +108,15 @@ func call(name string, f func([]byte) error, in []byte, deadline time.Duration) 
 	case o = <-ch:
 	case <-time.After(deadline):
 		o = out{ckHang, "deadline exceeded"}
+		// in-process stages on a machine shared with other checks: a call that is merely starved (file
+		// system, scheduler) gets a second, long wait before it is called a hang; a real hang stays one
+		if retryHang > 0 {
+			select {
+			case o = <-ch:
+				slowCalls++
+			case <-time.After(retryHang):
+			}
+		}
 	}
 	lastPanic = ""
 	if o.class == ckPanic || o.class == ckHang {
@@ -388,6 +400,7 @@ func run(dir string, seed uint64, tier string) error {
 		n = 120000
 	}
 	const dl = 3 * time.Second
+	retryHang = 40 * time.Second
 
 	// ---- corpus of modelled readers (every fixed defect / finding replay first)
 	lineCorpus := []string{"P\n", "P", "", "\n", ":", "::", "P:", "x", "ab", "a:", "C:Q", "C:Q1", "C:Q1=", "C:Q1AQID", "P:a\nM:1:2:3\n", "P:a\nF:d\nM:::\n", "P:a\nF:d\nM:1:2:0700:9\n", "P:a\na:0:0:0644\n",
@@ -606,7 +619,8 @@ func run(dir string, seed uint64, tier string) error {
 	call("readReleaseData", byName["readReleaseData"].run, []byte("A="+strings.Repeat("x", 1<<20)), dl)
 	call("expandapk.Split", byName["expandapk.Split"].run, tgz([2]string{".PKGINFO", strings.Repeat("pkgname = a\n", 100000)}), dl)
 
-	// ---- crashes recover cannot catch: child processes ---------------------------
+	// ---- crashes recover cannot catch: child processes. Both probes must exit normally since fix f716198
+	// (sortTarHeaders skips the "./" entry); before it: finding C15-F4, the tag stays armed ---------------------------
 	for _, probe := range []string{"sort-dot", "install-dot"} {
 		cmd := exec.Command(os.Args[0], "-child", probe)
 		cmd.Env = append(os.Environ(), "GOTRACEBACK=none")
@@ -630,7 +644,7 @@ func run(dir string, seed uint64, tier string) error {
 		}
 	}
 
-	st, _ := json.Marshal(map[string]any{"exploration_outcomes_ok_err_panic_timeout": stats, "note": "exploration of library decoders; not a proof"})
+	st, _ := json.Marshal(map[string]any{"exploration_outcomes_ok_err_panic_timeout": stats, "calls_that_needed_the_second_wait": slowCalls, "note": "exploration of library decoders; not a proof"})
 	fmt.Printf("STAT %s\n", st)
 	return w.Flush()
 }
